@@ -266,7 +266,7 @@ pub fn check_case(ex: &mut Executor, case: &Case) -> Result<u64, (String, Value)
 // ----- (1) binding space -------------------------------------------------------------------------
 
 fn binding_cases() -> Vec<(String, Case)> {
-    let names = ["a", "m", "x", "z"];
+    let names = ["a", "m", "x", "z", "d₁"]; // (a subscript digit is an index: d₁ is d_1, as a key and when looked up)
     let mut out = Vec::new();
     for body_shape in 0..3 {
         for n in names {
